@@ -52,82 +52,53 @@ Proof. exact indexed_sequential. Qed.
 
 (** ** Page cursor without an offset index (with or without dictionary page) *)
 
-Theorem C08_cursor_noindex_refines_position : forall dict pages ops,
-  positive pages -> run_noindex dict pages ops = run_spec_noindex pages ops.
+Theorem C08_cursor_noindex_refines_position : forall pages ops,
+  positive pages -> run_noindex pages ops = run_spec_noindex pages ops.
 Proof. exact noindex_refines. Qed.
 
-Theorem C08_noindex_seek_then_read_rows_from_k : forall dict pages h k m,
+Theorem C08_noindex_seek_then_read_rows_from_k : forall pages h k m,
   positive pages ->
-  let after := skipn (S (length h)) (run_noindex dict pages (h ++ SeekToRow k :: repeat ReadPage m)) in
+  let after := skipn (S (length h)) (run_noindex pages (h ++ SeekToRow k :: repeat ReadPage m)) in
   let rows := concat (map out_rows after) in
   rows = firstn (length rows) (skipn k (seq 0 (total_rows pages))) /\
   (In EOF after -> rows = skipn k (seq 0 (total_rows pages))) /\
   Forall good_out after.
 Proof. exact noindex_seek_then_read. Qed.
 
-(** ** Offset index loaded in the middle of a history (SkipPageIndex) *)
+(** ** Offset index loaded in the middle of a history (SkipPageIndex)
 
-Definition C08_lazy_index_full_statement : Prop := forall dict pages ops,
-  positive pages -> run_lazy dict pages ops = run_spec_lazy pages ops.
-
-(** Proved for chunks without a dictionary page. *)
-Theorem C08_lazy_index_partial : forall pages ops,
-  positive pages -> run_lazy false pages ops = run_spec_lazy pages ops.
+    Every chunk, with or without a dictionary page: the index-less seek leaves
+    the page counter at the first data page (file.go:1565-1568). *)
+Theorem C08_lazy_index_refines_position : forall pages ops,
+  positive pages -> run_lazy pages ops = run_spec_lazy pages ops.
 Proof. exact lazy_refines. Qed.
 
-(** With a dictionary page the index-less seek restarts f.index at 1 while the
-    stream is at data page 0 (file.go:1566-1569); once the offset index is
-    loaded the "already positioned at the target page" shortcut believes it.
-    The faithful model of the current code violates the statement. *)
-Theorem C08_lazy_index_dictionary_refuted : ~ C08_lazy_index_full_statement.
-Proof.
-  intros H.
-  specialize (H true [4; 4; 4] [Op (SeekToRow 0); LoadIndex; Op (SeekToRow 4); Op ReadPage]).
-  assert (Hp : positive [4; 4; 4]) by (repeat constructor).
-  specialize (H Hp). vm_compute in H. discriminate.
-Qed.
+(** ** Batch row reader (one column) over either cursor: every history of
+    ReadRows (any batch sizes), SeekToRow and Reset *)
 
-(** ** Batch row reader (one column) over either cursor, any batch sizes *)
-
-Definition C08_rows_reader_full_statement : Prop := forall pages ops,
-  positive pages -> run_rows_indexed false pages ops = run_rspec true pages ops.
-
-(** Proved for histories of ReadRows and SeekToRow (no Reset), and for all
-    histories of the reader whose Reset also forgets its row index. *)
-Theorem C08_rows_reader_refines_position_partial : forall clears pages ops,
-  positive pages -> Forall (reset_allowed clears) ops ->
-  run_rows_indexed clears pages ops = run_rspec true pages ops.
+Theorem C08_rows_reader_refines_position : forall pages ops,
+  positive pages -> run_rows_indexed pages ops = run_rspec true pages ops.
 Proof. exact rows_indexed_refines. Qed.
 
-Theorem C08_rows_reader_noindex_refines_position_partial : forall clears dict pages ops,
-  positive pages -> Forall (reset_allowed clears) ops ->
-  run_rows_noindex clears dict pages ops = run_rspec false pages ops.
+Theorem C08_rows_reader_noindex_refines_position : forall pages ops,
+  positive pages -> run_rows_noindex pages ops = run_rspec false pages ops.
 Proof. exact rows_noindex_refines. Qed.
 
 (** After SeekToRow k, reads of any batch sizes n1, n2, ... return exactly the
     first n1 + n2 + ... rows of the chunk from k on. *)
-Theorem C08_rows_reader_seek_then_read_partial : forall clears pages h k ns,
-  positive pages -> Forall (reset_allowed clears) h ->
+Theorem C08_rows_reader_seek_then_read : forall pages h k ns,
+  positive pages ->
   concat (map rout_rows (skipn (S (length h))
-    (run_rows_indexed clears pages (h ++ RSeek k :: map RRead ns)))) =
+    (run_rows_indexed pages (h ++ RSeek k :: map RRead ns)))) =
   firstn (list_sum ns) (skipn k (seq 0 (total_rows pages))).
 Proof. exact rows_indexed_seek_then_read. Qed.
 
-Theorem C08_rows_reader_noindex_seek_then_read_partial : forall clears dict pages h k ns,
-  positive pages -> Forall (reset_allowed clears) h ->
+Theorem C08_rows_reader_noindex_seek_then_read : forall pages h k ns,
+  positive pages ->
   concat (map rout_rows (skipn (S (length h))
-    (run_rows_noindex clears dict pages (h ++ RSeek k :: map RRead ns)))) =
+    (run_rows_noindex pages (h ++ RSeek k :: map RRead ns)))) =
   firstn (list_sum ns) (skipn k (seq 0 (total_rows pages))).
 Proof. exact rows_noindex_seek_then_read. Qed.
-
-(** rowGroupRows.Reset rewinds the columns but keeps r.rowIndex, so a
-    SeekToRow to the row the reader was at before the Reset is skipped. *)
-Theorem C08_rows_reader_reset_refuted : ~ C08_rows_reader_full_statement.
-Proof.
-  intros H. specialize (H [4; 4; 4] [RRead 5; RReset; RSeek 5; RRead 2]).
-  assert (Hp : positive [4; 4; 4]) by (repeat constructor).
-  specialize (H Hp). vm_compute in H. discriminate.
-Qed.
 
 Print Assumptions C08_cursor_refines_position.
 Print Assumptions C08_seek_then_read_rows_from_k.
@@ -135,13 +106,11 @@ Print Assumptions C08_seek_then_read_equals_sequential_skip.
 Print Assumptions C08_sequential_read_returns_all_rows.
 Print Assumptions C08_cursor_noindex_refines_position.
 Print Assumptions C08_noindex_seek_then_read_rows_from_k.
-Print Assumptions C08_lazy_index_partial.
-Print Assumptions C08_lazy_index_dictionary_refuted.
-Print Assumptions C08_rows_reader_refines_position_partial.
-Print Assumptions C08_rows_reader_noindex_refines_position_partial.
-Print Assumptions C08_rows_reader_seek_then_read_partial.
-Print Assumptions C08_rows_reader_noindex_seek_then_read_partial.
-Print Assumptions C08_rows_reader_reset_refuted.
+Print Assumptions C08_lazy_index_refines_position.
+Print Assumptions C08_rows_reader_refines_position.
+Print Assumptions C08_rows_reader_noindex_refines_position.
+Print Assumptions C08_rows_reader_seek_then_read.
+Print Assumptions C08_rows_reader_noindex_seek_then_read.
 
 (** ** Non-vacuity: a concrete layout and history *)
 
@@ -171,7 +140,7 @@ Example C08_ex_empty :
 Proof. vm_compute. reflexivity. Qed.
 
 Example C08_ex_rows :
-  run_rows_indexed false ex_pages [RRead 3; RSeek 26; RRead 5; RSeek 6; RRead 3]
+  run_rows_indexed ex_pages [RRead 3; RSeek 26; RRead 5; RSeek 6; RRead 3]
   = [RRows [0; 1; 2] false; RSeekOk; RRows [26; 27] true; RSeekOk; RRows [6; 7; 8] false].
 Proof. vm_compute. reflexivity. Qed.
 
@@ -194,4 +163,37 @@ Example C08_pinned_run :
   run_pinned ex_pages ex_history = [Rows 0 4; SeekOk; SeekOk; Rows 2 2; Rows 20 4].
 Proof. vm_compute. reflexivity. Qed.
 
+(** Before 5c1fea6 the index-less seek restarted f.index at 1 on a chunk with
+    a dictionary page while the stream was at data page 0; once the offset
+    index was loaded the "already positioned at the target page" shortcut
+    believed it.  The faithful model of that code violates the statement. *)
+Theorem C08_lazy_index_dictionary_pinned_refuted :
+  exists pages ops, positive pages /\ run_lazy_pinned true pages ops <> run_spec_lazy pages ops.
+Proof.
+  exists [4; 4; 4], [Op (SeekToRow 0); LoadIndex; Op (SeekToRow 4); Op ReadPage].
+  split; [repeat constructor|]. vm_compute. discriminate.
+Qed.
+
+(** Before 3b258db rowGroupRows.Reset rewound the columns but kept r.rowIndex,
+    so a SeekToRow to the row the reader was at before the Reset was skipped. *)
+Theorem C08_rows_reader_reset_pinned_refuted :
+  exists pages ops, positive pages /\ run_rows_indexed_pinned pages ops <> run_rspec true pages ops.
+Proof.
+  exists [4; 4; 4], [RRead 5; RReset; RSeek 5; RRead 2].
+  split; [repeat constructor|]. vm_compute. discriminate.
+Qed.
+
+(** the same histories on the current code *)
+Example C08_ex_lazy_dictionary :
+  run_lazy [4; 4; 4] [Op (SeekToRow 0); LoadIndex; Op (SeekToRow 4); Op ReadPage]
+  = [SeekOk; Done; SeekOk; Rows 4 4].
+Proof. vm_compute. reflexivity. Qed.
+
+Example C08_ex_reset :
+  run_rows_indexed [4; 4; 4] [RRead 5; RReset; RSeek 5; RRead 2]
+  = [RRows [0; 1; 2; 3; 4] false; RDone; RSeekOk; RRows [5; 6] false].
+Proof. vm_compute. reflexivity. Qed.
+
 Print Assumptions C08_pinned_refuted.
+Print Assumptions C08_lazy_index_dictionary_pinned_refuted.
+Print Assumptions C08_rows_reader_reset_pinned_refuted.
